@@ -52,7 +52,7 @@ GATES1 = ["h", "x", "z", "s", "t"]
 
 
 def plan(tier, seed):
-    n = 120 if tier == "quick" else 3000
+    n = 1000 if tier == "quick" else 12000
     return {"n_cases": n, "floors": {"evaluations": n // 3}}
 
 
